@@ -41,7 +41,7 @@ func init() {
 			sp.Extra = worldRun(WGen{Faults: true, Replicas2: true, ShortQuiet: true, ReloadFault: true}, w, id)
 			sp.ExtraEvery = 157
 			sp.ExtraNote = "every 157th run is a closed-loop world run (real sidecars, faults) whose every cycle is fed to the same oracle"
-			sp.Rule += "; every 157th run is a closed-loop world run (real coordinator + real sidecars + Prometheus stubs on the fake clock, with faults) whose every cycle trace goes through the same oracle"
+			sp.Rule += "; every 157th run is a closed-loop world run (real coordinator + real sidecars + Prometheus stubs on the fake clock, with faults) whose every cycle trace goes through the same oracle (a quarter of them in the churn flavour, a third of those with the fault \"sidecar's Prometheus API down for longer than max-idle-time on a shard that was just refilled, whose targets leave discovery meanwhile\")"
 			sp.TapeCap = 400000
 		}
 	}
